@@ -247,7 +247,9 @@ func SumFiles(files []LocalFile) map[Triple]bool {
 	sums := map[key]int64{}
 	for _, f := range files {
 		for n, v := range f.Counts {
-			sums[key{f.Build, n}] += int64(v)
+			// names become JSON object keys in a report: bytes that are not valid UTF-8 are written as
+			// U+FFFD there, and names that become equal that way are one counter of the report
+			sums[key{f.Build, strings.ToValidUTF8(n, "\uFFFD")}] += int64(v)
 		}
 	}
 	out := map[Triple]bool{}
